@@ -141,8 +141,11 @@ def random_scripts(tier, rng, tid0, n):
                 y = rng.random()
                 if y < 0.65:
                     ops.append({"o": "create", "w": w, "a": rng.choice([None, rng.randrange(100)]), "b": rng.choice([None, -rng.randrange(100)])})
-                elif y < 0.85:
+                elif y < 0.80:
                     ops.append({"o": "create_marked", "w": w, "a": rng.choice([None, rng.randrange(100)]), "via": rng.choice(["builder", "res"])})
+                elif y < 0.88:
+                    ops.append({"o": "lcreate_marked", "w": w, "a": rng.choice([None, rng.randrange(100)]),
+                                "premark": rng.random() < 0.4, "twice": rng.random() < 0.3})
                 else:
                     ops.append({"o": "ecreate", "w": w})
                 nh[w] += 1
